@@ -118,11 +118,24 @@ NONTRIVIAL = {
             "with overflow checks enabled"),
 }
 
+def shards_rules(tier):
+    # C01 / C12: the general mix plus high-volume two-ply probes around one push start / pull lead, dense
+    # neighbourhoods, edge and corner squares over-represented, pieces on the squares that alias across the a/h edge
+    if tier == "quick":
+        return shards_general(tier) + [("focus", 10000)] * 8
+    return shards_general(tier) + [("focus", 40000)] * 28
+
+
+def shards_capture(tier):
+    return shards_general(tier) + ([("focus", 8000)] * 3 if tier == "quick" else [("focus", 30000)] * 10)
+
+
 def shards_results(tier):
     return shards_general(tier) + [("results", 100000)]
 
 
 SHARDS = {
+    "C01": shards_rules, "C12": shards_rules, "C02": shards_capture, "C13": shards_capture, "C19": shards_capture,
     "C04": shards_results,
     "C05": shards_repetition, "C06": shards_repetition, "C07": shards_repetition,
     "C09": shards_setup,
